@@ -19,7 +19,8 @@ HOOKS = {'on_open_position': 0, 'on_close_position': 1, 'on_increased_position':
 
 
 def qq(x):
-    fr = Fraction(float(x))
+    # the decimal value jesse itself computes with: sum_floats / subtract_floats go through Decimal(str(x)), so 0.8 - 0.1 - 0.7 is exactly 0 there
+    fr = Fraction(repr(float(x))) if math.isfinite(float(x)) else Fraction(float(x))
     return f'(q {C.cz(fr.numerator)} {C.cz(fr.denominator)})'
 
 
@@ -32,32 +33,40 @@ def rows(a):
 
 
 # ------------------------------------------------------------------------------------------ fill sequences on the real objects
+def dsum(a, b):
+    from decimal import Decimal
+    return float(Decimal(str(a)) + Decimal(str(b)))
+
+
 def gen_fills(rng, irregular):
-    """signed qty on a 0.25 lattice, prices on a 0.5 lattice"""
+    """signed qty on a 0.25 lattice or on a lattice of tenths (decimal quantities whose binary sums are inexact: 0.8 - 0.1 - 0.7), prices on a 0.5 lattice"""
     fs, q = [], 0.0
+    dec = rng.random() < 0.5
+    OPEN, INC, RED, OVER = ([0.8, 0.3, 1.1, 0.7, 2.3], [0.1, 0.2, 0.7], (0.1, 0.2, 0.3, 0.7, 1.1), [0.1, 0.3, 1]) if dec else \
+                           ([1, 2, 0.5, 4, 1.5], [0.5, 1, 2], (0.25, 0.5, 1, 1.5), [0.5, 1, 2])
     for _ in range(rng.choice([2, 3, 4, 6, 8, 12])):
         price = 100.0 + rng.randrange(-20, 21) * 0.5
         r = rng.random()
         if q == 0:
-            sq = rng.choice([1, 2, 0.5, 4, 1.5]) * rng.choice([1, -1])
+            sq = rng.choice(OPEN) * rng.choice([1, -1])
             ro = irregular and r < 0.05
         elif r < 0.3:                                   # increase
-            sq = math.copysign(rng.choice([0.5, 1, 2]), q)
+            sq = math.copysign(rng.choice(INC), q)
             ro = irregular and rng.random() < 0.15
         elif r < 0.55:                                  # close
             sq, ro = -q, rng.random() < 0.7
         elif r < 0.85 or not irregular:                 # reduce
-            m = [x for x in (0.25, 0.5, 1, 1.5) if x < abs(q)]
+            m = [x for x in RED if x < abs(q)]
             sq = -math.copysign(rng.choice(m), q) if m else -q
             ro = rng.random() < 0.7
         else:                                           # oversize: reduce-only closes, otherwise flips
-            sq = -math.copysign(abs(q) + rng.choice([0.5, 1, 2]), q)
+            sq = -math.copysign(dsum(abs(q), rng.choice(OVER)), q)
             ro = rng.random() < 0.5
         fs.append((sq, price, bool(ro)))
         if q == 0: q = sq
-        elif q * sq > 0: q = q if ro else q + sq
-        elif abs(sq) > abs(q): q = 0.0 if ro else q + sq
-        else: q = q + sq
+        elif q * sq > 0: q = q if ro else dsum(q, sq)
+        elif abs(sq) > abs(q): q = 0.0 if ro else dsum(q, sq)
+        else: q = dsum(q, sq)
     return fs
 
 
@@ -140,6 +149,28 @@ def run(tier, seed, replay=None):
     res.oblige('fill sequences ran on the real objects', not errs_real, json.dumps(errs_real[:2])[:600])
     res.oblige('correspondence: Model/Trades.trun = real Order/Position/ClosedTrades/Strategy objects (wallet, position, hooks, closed trades and their fields)',
                not bad, json.dumps([{'fee': b[0], 'fills': b[2], 'impl': b[3]} for b in bad[:2]], default=str)[:1500])
+    # where model and objects disagree, decide the property itself on what the real objects did: the same Coq monitors as for sessions (hook grammar,
+    # hooks match the fills, closed trades = cycles of the fills, wallet = start + net PnL) on the object-level run
+    obj_viol = []
+    if bad:
+        MONS = {1: 'hook_grammar', 2: 'hooks_do_not_match_the_fills', 3: 'closed_trades_are_not_the_cycles_of_the_fills', 4: 'wallet_differs_from_start_plus_net_pnl_of_closed_trades'}
+        KINDS = {0: 'regular', 1: 'reduce_only_order_on_the_positions_own_side', 2: 'oversize_reduce_only_exit', 3: 'position_flip', 4: 'reduce_only_order_opens'}
+
+        def bterm(b):
+            fee, bal, fs, (wallet, pq, hooks, trades) = b
+            tt = C.clist([f"({C.cbool(t['short'])}, {rows(t['buys'])}, {rows(t['sells'])}, {qq(t['qty'])}, {oq(t['entry'])}, {oq(t['exit'])}, {oq(t['pnl'])})" for t in trades])
+            return (f"({qq(fee)}, {qq(bal)}, {C.clist([f'(mkfill {qq(a)} {qq(b_)} {C.cbool(r)})' for a, b_, r in fs])}, "
+                    f"{C.clist([f'({C.cnat(h)}, {qq(v)})' for h, v in hooks])}, {tt}, {qq(wallet)}, {C.cbool(pq == 0)})")
+        bjobs = [(f'c06_b_{j}', hdr + f'Definition c : session_case := {bterm(b)}.\nEval vm_compute in (mon_all c).\n') for j, b in enumerate(bad[:12])]
+        for b, (rc, o) in zip(bad[:12], C.coq_eval_many(bjobs, timeout=900)):
+            r = C.parse_results(o)
+            if rc != 0 or len(r) != 1:
+                continue
+            v = C.parse_nat_list(r[0])
+            for mi in range(1, 5):
+                if v[mi]:
+                    obj_viol.append((f'{MONS[mi]}:{KINDS[v[0]]}', {'fee': b[0], 'starting_balance': b[1], 'fills_signed_qty_price_reduce_only': b[2], 'final_wallet': b[3][0],
+                                                                 'final_position_qty': b[3][1], 'hooks_code_qty': b[3][2], 'closed_trades': b[3][3]}))
     # ------------------------------------------------------------------ monitors on real sessions
     from . import engine as E
     KIND = {0: 'regular', 1: 'reduce_only_order_on_the_positions_own_side', 2: 'oversize_reduce_only_exit', 3: 'position_flip', 4: 'reduce_only_order_opens'}
@@ -204,6 +235,10 @@ def run(tier, seed, replay=None):
     res.oblige('C06 session monitor files evaluated', not serrs, '\n'.join(serrs[:3]))
     res.oblige('sessions ran without an engine error', not sess_err, json.dumps(sess_err[:2], default=str)[:600])
     seen = set()
+    for site, rep in obj_viol:
+        if site in seen: continue
+        seen.add(site)
+        res.violation(site, site.split(':')[0].replace('_', ' ') + ' on a fill sequence driven through the real Order/Position/Strategy objects (' + site.split(':')[1].replace('_', ' ') + ')', rep)
     for site, j in sviol:
         if site in seen: continue
         seen.add(site)
